@@ -21,11 +21,13 @@ pub struct HistCase {
     pub tags: Vec<String>,
     /// which property's generation / checking plan produced it
     pub plan: String,
+    /// inject EIO into the n-th chunk-file creation by the caller thread (n >= 1: a rotation)
+    pub create_fault: Option<u32>,
 }
 
 impl HistCase {
     pub fn to_json(&self) -> Value {
-        json!({"plan": self.plan, "seed": self.seed.to_string(), "hist": self.hist, "cfg": self.cfg.to_json(), "steps": genr::steps_to_json(&self.steps)})
+        json!({"plan": self.plan, "create_fault": self.create_fault, "seed": self.seed.to_string(), "hist": self.hist, "cfg": self.cfg.to_json(), "steps": genr::steps_to_json(&self.steps)})
     }
     pub fn from_json(v: &Value) -> Option<HistCase> {
         Some(HistCase {
@@ -35,6 +37,7 @@ impl HistCase {
             steps: genr::steps_from_json(&v["steps"])?,
             tags: vec![],
             plan: v["plan"].as_str().unwrap_or("C01").to_string(),
+            create_fault: v["create_fault"].as_u64().map(|x| x as u32),
         })
     }
     pub fn brief(&self) -> Value {
@@ -44,6 +47,16 @@ impl HistCase {
 
 pub fn gen_case(seed: u64, hist: u64, p: &GenParams, plan: &str) -> HistCase {
     let mut r = Rng::new(seed);
+    let mut p2 = p.clone();
+    if plan == "C02" && r.chance(1, 2) {
+        // "when the chunk and cache limits differ between runs": tiny cache limits at the first open and at
+        // every restart, so that reads after a restart are served from disk. These histories never re-append
+        // at or below a removed log id (that pattern is C07's known finding D7).
+        p2.small_cache = true;
+        p2.lower_term = false;
+        p2.big_payloads = false;
+    }
+    let p = &p2;
     let cfg = genr::gen_config(&mut r, p);
     let mut g = Gen::new(r.next(), hist, p.clone());
     let mut steps = g.history();
@@ -51,7 +64,7 @@ pub fn gen_case(seed: u64, hist: u64, p: &GenParams, plan: &str) -> HistCase {
         let n = g.r.range(6, 16) as usize;
         g.adversarial_burst(n, &mut steps);
     }
-    HistCase { seed, hist, cfg, steps, tags: g.tags.iter().map(|s| s.to_string()).collect(), plan: plan.to_string() }
+    HistCase { seed, hist, cfg, steps, tags: g.tags.iter().map(|s| s.to_string()).collect(), plan: plan.to_string(), create_fault: if plan == "C02" && r.chance(1, 3) { Some(r.range(1, 6) as u32) } else { None } }
 }
 
 #[derive(Default, Debug)]
@@ -70,6 +83,7 @@ pub struct RunStats {
     pub segments_checked: u64,
     pub adversarial: u64,
     pub adversarial_diverged: u64,
+    pub io_faults_hit: u64,
     pub kinds: std::collections::BTreeMap<String, u64>,
     pub reject_kinds: std::collections::BTreeMap<String, u64>,
 }
@@ -86,6 +100,9 @@ pub struct Runner<'a> {
     pub check_each: bool,
     /// set when the rest of the history is no longer meaningful (not a violation)
     pub stop: bool,
+    /// an injected I/O fault has hit a write: the byte-exact journal prediction no longer applies
+    pub faulted: bool,
+    pub faults_seen: usize,
     inst: u32,
 }
 
@@ -99,7 +116,7 @@ impl<'a> Runner<'a> {
             Ok(s) => s,
             Err(o) => return Err(viol("C01", "open_empty_dir", format!("open of an empty directory: {}", o.brief()), case, 0)),
         };
-        Ok(Runner { case, st, m: Model::new(), j: RefJournal::new(&case.cfg), stats: RunStats::default(), r: Rng::new(case.seed ^ 0xabcdef), step_ix: 0, check_each: true, stop: false, inst: 1 })
+        Ok(Runner { case, st, m: Model::new(), j: RefJournal::new(&case.cfg), stats: RunStats::default(), r: Rng::new(case.seed ^ 0xabcdef), step_ix: 0, check_each: true, stop: false, faulted: false, faults_seen: 0, inst: 1 })
     }
 
     fn v(&self, prop: &str, sig: &str, text: String) -> Viol {
@@ -147,6 +164,9 @@ impl<'a> Runner<'a> {
 
     /// C11 (bookkeeping part): stat() agrees with the reference journal.
     pub fn check_stat(&mut self) -> Result<(), Viol> {
+        if self.faulted {
+            return Ok(());
+        }
         let s = self.st.rl().stat();
         let rf = self.j.files.last().unwrap();
         let o = &s.open_chunk;
@@ -183,6 +203,9 @@ impl<'a> Runner<'a> {
     /// C11: the directory is byte-identical to the reference journal (for the files that remain),
     /// names are offsets, files abut, on_disk_size is right, Dump (real decoder) agrees.
     pub fn check_journal(&mut self) -> Result<(), Viol> {
+        if self.faulted {
+            return Ok(());
+        }
         self.stats.journal_checks += 1;
         let img = store::read_image(&self.st.dir);
         if img.is_empty() {
@@ -305,6 +328,9 @@ impl<'a> Runner<'a> {
                             self.stats.records += 1;
                             last_pos = Some((off, size));
                         }
+                        if self.faulted {
+                            last_pos = None;
+                        }
                         if let (Some(want), Some(got)) = (last_pos, seg) {
                             self.stats.segments_checked += 1;
                             if want != *got {
@@ -312,7 +338,27 @@ impl<'a> Runner<'a> {
                             }
                         }
                     }
-                    Outcome::Err(e) => return Err(self.v("C01", "accepted_write_refused", format!("specification accepts, store returned Err({})", e))),
+                    Outcome::Err(e) => {
+                        if crate::trace::fired_faults() > self.faults_seen {
+                            // An injected I/O error surfaced in this call (chunk rotation failed). The record itself
+                            // had been journalled and applied before the rotation was attempted; a batch stops at
+                            // the entry that hit the error. Follow what the store reports and keep going: what
+                            // matters (C02) is that a later flush + restart shows this same state.
+                            self.faults_seen = crate::trace::fired_faults();
+                            self.faulted = true;
+                            self.stats.io_faults_hit += 1;
+                            let last_now = self.st.state().last;
+                            let mut applied = recs.len();
+                            if let Op::Append(es) = op {
+                                applied = es.iter().position(|(id, _)| Some(*id) == last_now).map(|p| p + 1).unwrap_or(0);
+                            }
+                            for r in recs.iter().take(applied) {
+                                self.m.apply(r);
+                            }
+                        } else {
+                            return Err(self.v("C01", "accepted_write_refused", format!("specification accepts, store returned Err({})", e)));
+                        }
+                    }
                     Outcome::Panic(p) => return Err(self.v("C01", "write_panic", format!("legal write panicked: {}", p))),
                 }
             }
@@ -528,6 +574,10 @@ fn trunc_ids(v: &[LogId]) -> Vec<LogId> {
 pub fn run_case(case: &HistCase, check_each: bool, final_restart: bool) -> (RunStats, Option<Viol>, Vec<Viol>) {
     let dir = util::fresh_dir("seq");
     crate::trace::reset_acks();
+    if let Some(n) = case.create_fault {
+        crate::trace::begin(&dir);
+        crate::trace::set_faults(vec![crate::trace::Fault { role: crate::trace::Role::Caller, kind: crate::trace::Sk::Create, nth: n, action: crate::trace::FaultAction::Eio, fired: false }]);
+    }
     let mut res = None;
     let mut side: Vec<Viol> = vec![];
     let stats;
@@ -556,20 +606,21 @@ pub fn run_case(case: &HistCase, check_each: bool, final_restart: bool) -> (RunS
             if res.is_none() && final_restart && !r.stop {
                 // flush + restart at the end: the store must open and show the same state
                 r.step_ix = case.steps.len();
+                let plan_label: &str = if case.plan == "C02" { "C02" } else { "C06" };
                 let fin = (|| -> Result<(), Viol> {
-                    r.do_sync("C06")?;
+                    r.do_sync(plan_label)?;
                     r.check_journal()?;
-                    let before = r.snapshot().map_err(|e| r.v("C06", "snapshot_before_close", e))?;
+                    let before = r.snapshot().map_err(|e| r.v(plan_label, "snapshot_before_close", e))?;
                     r.st.close();
                     let dirc = r.st.dir.clone();
                     let cfg = r.case.cfg.clone();
                     match Store::open(&dirc, &cfg, 99) {
                         Ok(s) => r.st = s,
-                        Err(o) => return Err(r.v("C06", "reopen_failed_after_rejections", format!("open after flush: {}", o.brief()))),
+                        Err(o) => return Err(r.v(plan_label, "reopen_failed_after_rejections", format!("open after flush: {}", o.brief()))),
                     }
-                    let after = r.snapshot().map_err(|e| r.v("C06", "unreadable_after_restart", e))?;
+                    let after = r.snapshot().map_err(|e| r.v(plan_label, "unreadable_after_restart", e))?;
                     if before.state != after.state || before.entries != after.entries {
-                        return Err(r.v("C06", "state_changed_by_restart", format!("{:?} -> {:?}", before.state, after.state)));
+                        return Err(r.v(plan_label, "state_changed_by_restart", format!("{:?} -> {:?}", before.state, after.state)));
                     }
                     Ok(())
                 })();
@@ -580,6 +631,9 @@ pub fn run_case(case: &HistCase, check_each: bool, final_restart: bool) -> (RunS
             r.st.close();
             stats = std::mem::take(&mut r.stats);
         }
+    }
+    if case.create_fault.is_some() {
+        let _ = crate::trace::end();
     }
     util::remove_dir(&dir);
     (stats, res, side)
@@ -598,7 +652,10 @@ pub fn plan_for(prop: &str) -> SeqPlan {
         "C01" => SeqPlan { params: p, check_each: true, final_restart: false, quick_histories: 60 },
         "C02" => {
             p.reopen_pm = 60;
-            SeqPlan { params: p, check_each: true, final_restart: true, quick_histories: 50 }
+            // some refused calls too: a history is any sequence of calls, and a refused call must not
+            // stand in the way of the next restart
+            p.reject_pm = 40;
+            SeqPlan { params: p, check_each: true, final_restart: true, quick_histories: 60 }
         }
         "C06" => {
             p.reject_pm = 250;
@@ -636,6 +693,7 @@ fn add_stats(out: &mut ShardOut, s: &RunStats) {
     out.count("returned_segments_checked", s.segments_checked);
     out.count("adversarial_calls", s.adversarial);
     out.count("adversarial_spec_store_disagree", s.adversarial_diverged);
+    out.count("writes_that_hit_an_injected_chunk_creation_failure", s.io_faults_hit);
     for (k, n) in &s.kinds {
         out.count(&format!("op:{}", k), *n);
     }
